@@ -1,7 +1,7 @@
 """C17 configuration (see lib/propcfg.py for the meaning of the keys)."""
 CFG = dict(
     models=[("gen", "Gen_IOSites"), ("model", "Sanitize")],
-    proofs=[("proofs", "Sanitize_proofs"), ("proofs", "IOSites_audit")],
+    proofs=[("proofs", "Sanitize_proofs"), ("proofs", "Sanitize_prog_proofs"), ("proofs", "IOSites_audit")],
     extract="Extract_Sanitize", module="sanitize_model", driver="drv_C17.ml", ocaml_extra=[],
     trusted_base=[
         "Go/OS: os.Create / os.Open resolve a name without separators relative to the current directory (no symbolic link planted "
@@ -19,7 +19,7 @@ CFG = dict(
                "C17_sanitize_empty_only (only \".gr\"), C17_sanitize_is_function_of_name (+ _config_irrelevance), C17_rejected_no_effect, "
                "C17_confined (every name handed to the OS is in the allowed set {plain names | \".gr\", \"grol.png\"}, no process is spawned, every "
                "file outside that set is unchanged, every new file is inside it), C17_no_exec_when_restricted (+ exec/run calls are undefined "
-               "and without effect), C17_registered_spec. The theorems are about coq/model/Sanitize.v, faithful to sanitizeFileName (TrimSuffix, "
+               "and without effect), C17_registered_spec. Adaptive programs (the next request is any function of the outcomes so far, contents returned by load included - which is how a loaded file issues its own requests; run_prog, request lists are the special case): C17_read_noninterference (two file systems that agree on the allowed names and differ arbitrarily elsewhere give every restricted program the same outcomes and the same OS calls and still agree afterwards: nothing outside the allowed set can be read), C17_adaptive_confined (the three confinement conclusions for every adaptive program), C17_request_lists_are_programs; C17_sanitize_characterisation (restricted, not empty-only: a name is accepted iff it is b or b.gr with b letters/digits/underscores, and then as b.gr) and C17_sanitize_idempotent. The theorems are about coq/model/Sanitize.v, faithful to sanitizeFileName (TrimSuffix, "
                "lexer.IsAlphaNum, the flag order), saveFunc/loadFunc/image.save and the registration conditions. Tie: (T) the translator "
                "regenerates the inventory of every file/process/network reference of /repo and the suffix constant; C17_io_inventory_audited, "
                "C17_third_party_imports_audited, C17_suffix_constant, C17_audited_sites_policy are proof obligations that break when a new IO site appears; "
@@ -30,7 +30,7 @@ CFG = dict(
                "scratch tree with decoys, the tree is diffed after every case and compared with the model's file system. The production binary is also run under strace on script files located in the parent, a sibling and a subdirectory of the working directory (plain and -s mode, relative and absolute path) with decoy libraries next to the script. A model-free oracle "
                "states the property directly on those observations.",
     level_note="Trusted: Coq kernel, extraction (ExtrOcamlBasic), OCaml driver, Go harness, translator; axioms: none (Print Assumptions: closed "
-               "under the global context for all 15 theorems). Modelled, not verified: the Go code; the kernel's path resolution (symbolic links "
+               "under the global context for all 20 theorems). Modelled, not verified: the Go code; the kernel's path resolution (symbolic links "
                "already present in the working directory), the interactive REPL's history file and command-line files of main.go are outside "
                "the model (they are not chosen by the grol program); AutoSave's fixed temporary file .grol*.tmp -> .gr is observed by the direct "
                "oracle only (C18 owns it).",
